@@ -402,6 +402,7 @@ pub fn s2(n: usize) -> Vec<Case> {
         let prog = Program {
             decls: Decls::default(),
             funcs: vec![f],
+            ..Default::default()
         };
         let mut body = vec![];
         for a in S2_INPUTS {
@@ -626,6 +627,7 @@ pub fn s3(size: usize) -> Vec<Case> {
                 let prog = Program {
                     decls: d.clone(),
                     funcs: vec![byval, refmut, proj],
+                    ..Default::default()
                 };
                 let body = vec![
                     Stmt::Let("a".into(), false, None, build_expr(&v0)),
@@ -767,7 +769,7 @@ pub fn s3_enums() -> Vec<Case> {
                 },
                 inline: Inline::Never,
             };
-            let prog = Program { decls: d.clone(), funcs: vec![f] };
+            let prog = Program { decls: d.clone(), funcs: vec![f], ..Default::default() };
             let mut seed = 0;
             let mk = |t: &Ty, seed: &mut u64| -> Expr {
                 match t {
@@ -948,6 +950,7 @@ pub fn s4_pairs(inlines: &[Inline]) -> Vec<Case> {
                 let prog = Program {
                     decls: Decls::default(),
                     funcs: vec![f2("f", bi.clone(), inl), f2("g", bj.clone(), inl)],
+                    ..Default::default()
                 };
                 let mut body = vec![];
                 for (x, y) in [(5u64, 3u64), (3, 5), (4, 4)] {
@@ -1007,6 +1010,7 @@ pub fn s4_dags() -> Vec<Case> {
                     let prog = Program {
                         decls: Decls::default(),
                         funcs: vec![f2("f", bi.clone(), inl), f2("g", bj.clone(), inl), f2("h", mk(), Inline::Never)],
+                        ..Default::default()
                     };
                     let body = vec![
                         Stmt::Log(call("h", vec![opq(u(5)), opq(u(3))])),
@@ -1069,6 +1073,7 @@ pub fn s4_generics() -> Vec<Case> {
             let prog = Program {
                 decls: Decls::default(),
                 funcs: vec![gid.clone(), gfst.clone(), gsnd.clone()],
+                ..Default::default()
             };
             let body = vec![
                 Stmt::Log(call("gid", vec![build_expr(v)])),
@@ -1249,6 +1254,7 @@ pub fn ladder(shape: LadderShape, k: usize) -> Case {
     let prog = Program {
         decls: Decls::default(),
         funcs: vec![f, mid, agg],
+        ..Default::default()
     };
     let body = vec![
         Stmt::Log(call("lad", vec![opq(u(10))])),
